@@ -260,6 +260,10 @@ def run(ctx):
         ctx.count("shared_state_scans")
         ctx.ob("C18.c", q, not writes, "the per-host parse path stores to no class attribute (hosts share no state)", func=q, file=f.module.rel,
                node=writes[0] if writes else None, fail="per-host coroutine writes shared class state: results depend on arrival order")
+    # ---- C18.a "exactly once per responding host": the host a device stands for is the address its reply came from (C17.b's obligation,
+    # re-run here: reporting the address written inside the reply lets two hosts collapse into one, or one host appear under another's)
+    from .c17 import reported_ip_is_source
+    reported_ip_is_source(ctx, "C18.a")
     ctx.require_min("create_task_sites", 1)
     ctx.require_min("boundaries", 2)
     ctx.require_min("raiser_sites", 8)
